@@ -217,10 +217,28 @@ class Gen13:
             body.append(Node('assign', PV(tgt), self.rexpr(s2, 2)))
         if budget > 0 and r.random() < 0.4:
             body += self.stmts(s2, 1, budget - 1, allow_new=False)
+        if r.random() < 0.35:
+            body = self.inner_loop(s2) + body
         body.append(Node('assign', PV(i), Node('op2', 'add', V(i), lit(1))))
         test = Node('cmp', ['<'], [V(i), lit(k)])
         if r.random() < 0.25:
             test = Node('and', [test, self.test1(sc)])
+        return pre + [Node('while', test, body)]
+
+    def inner_loop(self, sc):
+        """A counter loop nested in a loop body whose condition reads a copy of an outer variable."""
+        r = self.r
+        self.features.add('nested-while')
+        y, j = self.fresh('y'), self.fresh('j')
+        src = r.choice(self.reals(sc))
+        pre = [Node('assign', PV(y), V(src) if r.random() < 0.7 else self.rexpr(sc, 1)),
+               Node('assign', PV(j), lit(0))]
+        s2 = dict(sc)
+        s2[y] = 'R'
+        test = Node('and', [Node('cmp', [r.choice(['<', '<=', '!=', '>'])], [V(y), lit(r.choice([0, 1, 2]))]),
+                            Node('cmp', ['<'], [V(j), lit(r.randint(1, 2))])])
+        body = [Node('assign', PV(y), Node('op2', r.choice(['mul', 'add', 'sub']), V(y), lit(r.choice([1, 0, 2, F(1, 2)])))),
+                Node('assign', PV(j), Node('op2', 'add', V(j), lit(1)))]
         return pre + [Node('while', test, body)]
 
     def for_loop(self, sc, budget):
@@ -267,7 +285,7 @@ class Gen13:
         r = self.r
         ls = [x for x, t in sc.items() if isinstance(t, tuple) and t[0] == 'L']
         k = r.random()
-        if not ls or k < 0.25:
+        if not ls or k < 0.2:
             x = self.fresh('ys')
             n = r.randint(1, 3)
             self.features.add('list-new')
@@ -276,22 +294,22 @@ class Gen13:
             return [st]
         src = r.choice(ls)
         n = sc[src][1]
-        if k < 0.45:
+        if k < 0.35:
             x = self.fresh('zs')
             sc[x] = sc[src]
             self.features.add('list-alias')
             return [Node('assign', PV(x), V(src))]
-        if k < 0.65 and n:
+        if k < 0.5 and n:
             self.features.add('list-store')
             return [Node('iassign', src, [lit(r.randrange(n))], self.rexpr(sc, 1))]
-        if k < 0.8 and n:
+        if k < 0.62 and n:
             x = self.fresh('sl')
             a = r.randint(0, n)
             b = r.randint(a, n)
             sc[x] = ('L', b - a)
             self.features.add('list-slice')
             return [Node('assign', PV(x), Node('slice', V(src), lit(a) if r.random() < 0.7 else None, lit(b)))]
-        if k < 0.9:
+        if k < 0.76:
             p, a, b = self.fresh('p'), self.fresh('a'), self.fresh('b')
             self.features.add('tuple')
             sts = [Node('assign', PV(p), Node('tuple', [self.rexpr(sc, 1), V(src)])),
@@ -299,7 +317,7 @@ class Gen13:
             sc[a] = 'R'
             sc[b] = sc[src]
             return sts
-        if k < 0.96:
+        if k < 0.93:
             # a list of lists, sliced: the rows of the slice are the rows of the original
             rows, sl, row = self.fresh('rows'), self.fresh('sl'), self.fresh('row')
             other = r.choice(ls)
